@@ -259,3 +259,85 @@ Proof. intros Hb. unfold g16le. pose proof (byte_at_lt d o Hb). pose proof (byte
 Lemma completes_bounded {A} n (p : prog A) d :
   bounded n p -> bytes_ok d = true -> n <= len d -> completes (run d p) = true.
 Proof. intros Hp Hb Hn. destruct (bounded_safe n p Hp d Hb Hn) as [a E]. rewrite E. reflexivity. Qed.
+
+(* ---------------------------------------------------------------- histories of datagrams *)
+(* A node handles one datagram after the other.  A history item is (per-datagram extra input, datagram,
+   stale tail that happens to follow it in the receive buffer); `step i n s` is the handler on state s,
+   `next s r` the state it leaves behind, the results r are the observable outputs in order. *)
+Section History.
+  Context {I S R : Type}.
+  Variable cap : N.
+  Variable step : I -> N -> S -> prog R.
+  Variable next : S -> R -> S.
+
+  Fixpoint run_hist (s : S) (h : list (I * list N * list N)) : outcome (S * list R) :=
+    match h with
+    | [] => Done (s, [])
+    | (i, d, t) :: h' =>
+      match run (d ++ t) (step i (len d) s) with
+      | Hazard z => Hazard z
+      | Done r =>
+        match run_hist (next s r) h' with
+        | Hazard z => Hazard z
+        | Done (s', rs) => Done (s', r :: rs)
+        end
+      end
+    end.
+
+  Hypothesis step_bounded : forall i n s, n <= cap -> bounded n (step i n s).
+
+  Definition item_ok (x : I * list N * list N) : Prop :=
+    let '(_, d, t) := x in bytes_ok d = true /\ bytes_ok t = true /\ len d <= cap.
+
+  (* no datagram of any history ends in a hazard (out-of-bounds read, fuel, division by zero) *)
+  Theorem hist_safe : forall h s, Forall item_ok h -> exists r, run_hist s h = Done r.
+  Proof.
+    induction h as [|[[i d] t] h IH]; intros s Hh; cbn [run_hist].
+    - eauto.
+    - inversion Hh as [|x l Hx Hr]; subst. unfold item_ok in Hx. destruct Hx as (Hd & Ht & Hl).
+      destruct (bounded_safe (len d) _ (step_bounded i (len d) s Hl) (d ++ t)) as [r Er].
+      + rewrite bytes_ok_app, Hd, Ht. reflexivity.
+      + rewrite len_app. lia.
+      + rewrite Er. destruct (IH (next s r) Hr) as [[s' rs] E]. rewrite E. eauto.
+  Qed.
+
+  (* two histories with the same datagrams (and extra inputs) but arbitrary, different stale tails give the
+     same outputs after every datagram and the same final state *)
+  Theorem hist_stale_free : forall h1 h2 s,
+    Forall2 (fun x y => fst x = fst y) h1 h2 -> Forall item_ok h1 ->
+    run_hist s h1 = run_hist s h2.
+  Proof.
+    induction h1 as [|[[i d] t1] h1 IH]; intros h2 s H2 Hh; inversion H2 as [|x y l1 l2 Hxy Hr]; subst.
+    - reflexivity.
+    - destruct y as [[i2 d2] t2]. cbn [fst] in Hxy. inversion Hxy; subst i2 d2.
+      inversion Hh as [|x l Hx Hrest]; subst. unfold item_ok in Hx. destruct Hx as (Hd & Ht & Hl). cbn [run_hist].
+      rewrite (bounded_stale_free d _ (step_bounded i (len d) s Hl) Hd t1 t2).
+      destruct (run (d ++ t2) (step i (len d) s)) as [r|z]; [|reflexivity].
+      rewrite (IH l2 (next s r) Hr Hrest). reflexivity.
+  Qed.
+End History.
+
+(* the same for a handler that is NOT bounded for every datagram (a known finding): the guard is that along the
+   history every datagram, run alone (capacity = its own length), completes *)
+Section HistoryWithin.
+  Context {I S R : Type}.
+  Variable step : I -> N -> S -> prog R.
+  Variable next : S -> R -> S.
+  Fixpoint within_hist (s : S) (h : list (I * list N)) : Prop :=
+    match h with
+    | [] => True
+    | (i, d) :: h' => exists r, run d (step i (len d) s) = Done r /\ within_hist (next s r) h'
+    end.
+  Theorem hist_within_stale_free : forall h1 h2 s,
+    Forall2 (fun x y => fst x = fst y) h1 h2 -> within_hist s (map fst h1) ->
+    run_hist step next s h1 = run_hist step next s h2 /\ exists r, run_hist step next s h1 = Done r.
+  Proof.
+    induction h1 as [|[[i d] t1] h1 IH]; intros h2 s H2 Hw; inversion H2 as [|x y l1 l2 Hxy Hr]; subst.
+    - split; [reflexivity|cbn; eauto].
+    - destruct y as [[i2 d2] t2]. cbn [fst] in Hxy. inversion Hxy; subst i2 d2.
+      cbn [map fst within_hist] in Hw. destruct Hw as (r & Er & Hw). cbn [run_hist].
+      rewrite (run_app_mono _ _ t1 _ Er), (run_app_mono _ _ t2 _ Er).
+      destruct (IH l2 (next s r) Hr Hw) as (E & (r' & E')). rewrite <- E, E'.
+      destruct r' as [s' rs]. split; eauto.
+  Qed.
+End HistoryWithin.
